@@ -8,6 +8,7 @@ place; R18e every separator path of split_at_chars is accounted for in the
 max_split bound; R18f parse_keyval_content = split at commas, then at the first
 equals sign (max_split=1) of each part."""
 import ast
+from .. import symex
 from ..core import (AnalysisError, short, unparse, iter_own, call_name, call_recv, kwarg,
                     is_self_attr, atomic_facts, parents, enclosing_stmt, enclosing_func)
 
@@ -309,7 +310,7 @@ def run(ctx):
     # the bound dominates every way of finding a separator; a regex separator is searched in the
     # whole text from pos (left context kept)
     if gns is not None:
-        from .. import symex
+        pass
         bound_txt = None
         for n in ast.walk(gns):
             if isinstance(n, ast.Compare) and len(n.ops) == 1 and unparse(n.comparators[0]) == 'max_split' \
@@ -350,6 +351,60 @@ def run(ctx):
                                     '(at most max_split splits)', construct='split_at_node bound: '
                       + short(n), trivial=True)
     ctx.assume('separator callables / regular expressions supplied by the caller are outside the rule')
+    # ---- R18j: positions are never tested by truthiness
+    ctx.rule('R18j', 'a separator position (offset 0 is a valid match position) is never tested by truthiness in '
+                     'the splitting code', 0)
+    from . import gcommon as _gc
+    n_pt = 0
+    for q_, f_ in sorted(m.functions.items()):
+        for nm_, t_, where_ in _gc.position_truthiness(f_):
+            n_pt += 1
+            ctx.refuted('R18j', m, where_, '%s: the position %s is tested by truthiness (%s): a match at offset 0 -- a '
+                        'separator at the very start of a character node -- is treated like "no match", so the node '
+                        'is not split there' % (q_, nm_, short(where_, 60)),
+                        construct='%s: truthiness of %s' % (q_, nm_))
+    ctx.holds('R18j', m, None, 'no position-like local used as a number is tested by truthiness in nodes.py',
+              construct='position truthiness scan', trivial=True)
+
+    # ---- R18k: split_at_node places every node
+    ctx.rule('R18k', 'split_at_node: on every path of its loop the node is appended to a part, unless it is a skipped '
+                     'None or the separator at which a new part is started', 1)
+    sloops = [l_ for l_ in san.body if isinstance(l_, ast.For)]
+    if len(sloops) != 1 or not isinstance(sloops[0].target, ast.Name):
+        ctx.unknown('R18k', m, san, 'single loop over the nodes not found', construct='split_at_node: placement')
+    else:
+        lv_ = sloops[0].target.id
+        try:
+            pcs = symex.Walker(want_exits=True, trace=True,
+                               is_sink=lambda c_: call_name(c_) in ('append', 'extend', 'insert')).run_block(sloops[0].body)
+        except symex.TooManyPaths:
+            pcs = None
+        if pcs is None:
+            ctx.unknown('R18k', m, sloops[0], 'too many paths', construct='split_at_node: placement')
+        else:
+            bad = None
+            n_paths = 0
+            for cs in pcs:
+                if cs.kind not in ('end', 'continue'):
+                    if cs.kind in ('break', 'return') and bad is None:
+                        bad = (cs, 'the loop is left early')
+                    continue
+                n_paths += 1
+                tr_ = [t_ for t_ in cs.env.get('#trace', ()) if isinstance(t_[0], ast.Call)]
+                placed = any(isinstance(x, ast.Name) and x.id == lv_ for t_ in tr_ for a_ in t_[0].args
+                             for x in ast.walk(a_))
+                newpart = any(isinstance(a_, ast.List) for t_ in tr_ for a_ in t_[0].args)
+                facts = symex.facts_of(cs.conds, cs.env)
+                isnone = ('%s is None' % lv_, True) in facts
+                if not (placed or newpart or isnone) and bad is None:
+                    bad = (cs, 'the node is neither appended to a part nor the separator of a new part')
+            ctx.decide('R18k', bad is None and n_paths > 0, m, sloops[0],
+                       'every node is appended, starts a new part, or is a skipped None (%d path(s))' % n_paths,
+                       'split_at_node: on the path [%s] %s: the node disappears from the result (separators met '
+                       'after max_split was reached are dropped from the remainder, so the parts no longer '
+                       'reproduce the list)' % (' & '.join(bad[0].cond_src())[:200] if bad else '', bad[1] if bad else ''),
+                       construct='split_at_node: placement')
+
     return 'other', (
         'Decides per site that chunk text and chunk position use the same bounds, that only '
         'top-level chars nodes are searched, that the key-value result is type-consistent across '
